@@ -132,6 +132,12 @@ Theorem C02_xadd_sound_partial :
 Proof. exact xadd_sound_partial. Qed.
 Print Assumptions C02_xadd_sound_partial.
 
+(* non-vacuity: the Safe class of the add extension is inhabited (input 1 laid out 512 bytes after input 0) *)
+Example C02_xadd_nonvacuous :
+  let p := mkSP [2] [64] [8] in
+  xadd_adjacentb 0 512 p p = true /\ pattern_words (xadd_pattern p) [8] <> [].
+Proof. split; [reflexivity | vm_compute; discriminate]. Qed.
+
 (* ... and outside it the full statement is false (known finding F41, class xdma_add_second_operand_assumed) *)
 Theorem C02_xadd_refuted :
   let p := mkSP [2] [64] [8] in
@@ -218,3 +224,46 @@ Proof. apply linear_on_boxb_sound. vm_compute. reflexivity. Qed.
 Example C02_misaligned_tiling_refuted :
   ~ linear_on_box (access_mem (LTsl [[(16, 2); (1, 8)]]) 8 [[4; 1]] [0]) [4; 4].
 Proof. intros H. apply linear_on_boxb_complete in H. vm_compute in H. discriminate H. Qed.
+
+(* 9. (audit) Inside the Safe class the converter never refuses: convert_okb mirrors every error branch, so a Safe
+      operand always gets a pattern — a loud rejection of a Safe operand is a disagreement with the model. *)
+From Snax Require Import Proofs.C02AuditProofs.
+From Snax Require Model.Tsl.
+Theorem C02_safe_converts :
+  forall elsize bcast spats dims, convert_okb elsize spats dims = true -> exists p, to_pattern bcast spats dims = Ok p.
+Proof. exact safe_converts. Qed.
+Print Assumptions C02_safe_converts.
+
+(* 10. (audit) The two halves composed.  What layout resolution hands to the converter — the (stride, bound) pairs,
+       last iteration dim innermost — is the address sequence of the scheduled elements relative to the constant
+       term, in schedule (row-major) order ... *)
+Theorem C02_resolve_nest :
+  forall f bounds, linear_on_box f bounds ->
+  nest (rev (combine (resolve f (List.length bounds)) bounds))
+  = map (fun x => f x - resolve_base f (List.length bounds)) (Tsl.row_major bounds).
+Proof. exact resolve_nest. Qed.
+Print Assumptions C02_resolve_nest.
+
+(* ... hence, for an operand all of whose iteration dims are relevant (snax_alu, xDMA; a gemmx operand drops the
+   template dims it does not depend on, which the hardware replicates over the PE array: not covered here), the
+   base-pointer constant plus the final (canonicalised) stride pattern stream, byte for byte and in schedule order,
+   the elements layout(schedule(x)) for x over the whole iteration box. *)
+Theorem C02_end_to_end_bytes :
+  forall f bounds elsize bcast spats p q,
+  let n := List.length bounds in
+  let dims := rev (combine (resolve f n) bounds) in
+  linear_on_box f bounds ->
+  convert_okb elsize spats dims = true -> to_pattern bcast spats dims = Ok p -> gen_canonicalize p = Some q ->
+  byte_stream TCDM (map (fun w => resolve_base f n + w) (pattern_words q spats))
+  = byte_stream elsize (map f (Tsl.row_major bounds)).
+Proof. exact end_to_end_bytes. Qed.
+Print Assumptions C02_end_to_end_bytes.
+
+(* non-vacuity: i64 operand with a static offset of 5 elements under the schedule 4*d0 + d1 on snax_alu *)
+Example C02_end_to_end_nonvacuous :
+  let f := access_mem (LStrided [1] 5) 8 [[4; 1]] [0] in
+  let dims := rev (combine (resolve f 2) [3; 4]) in
+  linear_on_box f [3; 4] /\ dims = [(8, 4); (32, 3)] /\ convert_okb 8 [4] dims = true /\
+  to_pattern false [4] dims = Ok (mkSP [3] [32] [8]) /\
+  gen_canonicalize (mkSP [3] [32] [8]) = Some (mkSP [3] [32] [8]) /\ resolve_base f 2 = 40.
+Proof. split; [apply linear_on_boxb_sound; vm_compute; reflexivity | repeat split; vm_compute; reflexivity]. Qed.
